@@ -447,6 +447,7 @@ void getOffsetAndCount(const MultiTag &tag, const DataArray &array, const vector
 
     vector<vector<double>> start_positions(dimension_count);
     vector<vector<double>> end_positions(dimension_count);
+    vector<vector<double>> extent_values(dimension_count);
     vector<double> offset, extent;
     for (size_t idx = 0; idx < indices.size(); ++idx) {
         temp_offset[0] = indices[idx];
@@ -471,9 +472,11 @@ void getOffsetAndCount(const MultiTag &tag, const DataArray &array, const vector
             if (idx == 0) {
                 start_positions[dim_index] = vector<double>(indices.size());
                 end_positions[dim_index] = vector<double>(indices.size());
+                extent_values[dim_index] = vector<double>(indices.size());
             }
             start_positions[dim_index][idx] = offset[dim_index];
             end_positions[dim_index][idx] = offset[dim_index] + extent[dim_index];
+            extent_values[dim_index][idx] = extent[dim_index];
         }
     }
 
@@ -497,14 +500,13 @@ void getOffsetAndCount(const MultiTag &tag, const DataArray &array, const vector
                 ndsize_t count =  (*opt_range).second - (*opt_range).first;
                 data_count[dim_index] += count;
             } else {
-                if (end_positions[dim_index][i] == start_positions[dim_index][i]) {
-                    optional<ndsize_t> ofst = positionToIndex(end_positions[dim_index][i], units[dim_index], PositionMatch::GreaterOrEqual, dimensions[dim_index]);  
-                    if (!ofst) {
-                        throw nix::OutOfBounds("util::offsetAndCount:An invalid range was encountered!");
-                    }
-                    temp_offset[i] = *ofst;
+                // no valid index range: a zero extent tags the single element at or after the position, anything else is an error
+                optional<ndsize_t> ofst = positionToIndex(start_positions[dim_index][i], units[dim_index], PositionMatch::GreaterOrEqual, dimensions[dim_index]);
+                if (extent_values[dim_index][i] != 0. || !ofst) {
+                    throw nix::OutOfBounds("util::offsetAndCount:An invalid range was encountered!");
                 }
-            }   
+                data_offset[dim_index] = *ofst;
+            }
         }
         offsets.push_back(data_offset);
         counts.push_back(data_count);
